@@ -3,7 +3,7 @@
 //
 // Stream per case
 //   CASE k <class>
-//   opts <aca> <nearalign> <reps> <kinkWidth> <scope> <aspect> <padScalar>
+//   opts <aca> <nearalign> <reps> <kinkWidth> <scope> <aspect> <padScalar> <defaultTreeGrowthDir 0=E 1=S 2=W 3=N>
 //   pos <mode>          size <mode>
 //   n0 <id> <cx> <cy> <w> <h>            one per node, as built (ids = Node::id())
 //   e0 <eid> <srcId> <tgtId>             one per edge, as built
@@ -226,13 +226,15 @@ static AG genLinks(int n, vh::Rng &r) {
 
 struct Geo { double cx, cy, w, h; };
 
-static HolaOpts mkOpts(bool aca, bool nearAlign, unsigned reps, double kink, double scope, int aspect) {
+// growth: 0 EAST, 1 SOUTH (library default), 2 WEST, 3 NORTH  (= dialect::CardinalDir)
+static HolaOpts mkOpts(bool aca, bool nearAlign, unsigned reps, double kink, double scope, int aspect, int growth = 1) {
     HolaOpts opts;
     opts.useACAforLinks = aca;
     opts.do_near_align = nearAlign;
     opts.align_reps = reps;
     opts.nearAlignScalar_kinkWidth = kink;
     opts.nearAlignScalar_scope = scope;
+    opts.defaultTreeGrowthDir = (CardinalDir) growth;
     opts.preferredAspectRatio = aspect == 0 ? AspectRatioClass::NONE : aspect == 1 ? AspectRatioClass::PORTRAIT : AspectRatioClass::LANDSCAPE;
     return opts;
 }
@@ -242,9 +244,9 @@ static void runOne(long k, const std::string &tag, const AG &g, const std::vecto
                    int aspect, int posMode, int sizeMode, const std::vector<char> &flip) {
     int n = g.n;
     vh::beginCase(k, tag.c_str());
-    printf("opts %d %d %u %s %s %d %s\n", (int) opts.useACAforLinks, (int) opts.do_near_align, opts.align_reps,
+    printf("opts %d %d %u %s %s %d %s %d\n", (int) opts.useACAforLinks, (int) opts.do_near_align, opts.align_reps,
            vh::hx(opts.nearAlignScalar_kinkWidth).c_str(), vh::hx(opts.nearAlignScalar_scope).c_str(), aspect,
-           vh::hx(opts.nodePaddingScalar).c_str());
+           vh::hx(opts.nodePaddingScalar).c_str(), (int) opts.defaultTreeGrowthDir);
     printf("pos %d\nsize %d\n", posMode, sizeMode);
     Graph G;
     std::vector<Node_SP> nodes(n);
@@ -357,6 +359,17 @@ static std::vector<Fixed> fixedCases() {
         f.aca = false; f.nearAlign = false; f.reps = 1; f.kink = 0.5; f.scope = 2.0; f.aspect = 0;
         v.push_back(f);
     }
+    // F7: whole graph is a tree, default options: Tree::symmetricLayout puts adjacent ranks exactly
+    // treeLayoutScalar_rankSep*IEL apart centre to centre whatever the nodes' extent along the growth direction, so a
+    // node longer than that overlaps its central child (root 10x200 over a 20x20 child, IEL 85) and the inter-rank
+    // BDRY >= 0 constraint written by Tree::addConstraints is not satisfied
+    {
+        Fixed f; f.tag = "finding-tree-rank-overlap"; f.n = 4;
+        f.es = {{0, 1}, {0, 2}, {0, 3}};
+        f.geo = {{50, 10, 10, 200}, {0, 100, 20, 20}, {50, 100, 20, 20}, {100, 100, 20, 30}};
+        f.aca = true; f.nearAlign = true; f.aspect = 0;
+        v.push_back(f);
+    }
     return v;
 }
 
@@ -374,6 +387,7 @@ int main(int argc, char **argv) {
             std::string s = kw;
             if (s == "opts") { int ac, na, as; unsigned rp; double kk, sc; if (fscanf(f, "%d %d %u %lf %lf %d", &ac, &na, &rp, &kk, &sc, &as) != 6) return 2;
                 opts = mkOpts(ac, na, rp, kk, sc, as); aspect = as; }
+            else if (s == "growth") { int gd; if (fscanf(f, "%d", &gd) != 1) return 2; opts.defaultTreeGrowthDir = (CardinalDir) gd; }
             else if (s == "node") { Geo q; if (fscanf(f, "%lf %lf %lf %lf", &q.cx, &q.cy, &q.w, &q.h) != 4) return 2; geo.push_back(q); g.addNode(); }
             else if (s == "edge") { int x, y; if (fscanf(f, "%d %d", &x, &y) != 2) return 2; g.es.push_back({x, y}); }
         }
@@ -394,11 +408,17 @@ int main(int argc, char **argv) {
     long nfixed = k;
     long ncases = (thorough ? 400 : 160) * a.scale;
     if (a.n >= 0) ncases = a.n;
-    const int NCLS = 8;
-    const char *classes[NCLS] = {"tree", "tree-sym", "cycle", "core-trees", "hub", "links", "core-trees", "hub"};
+    // the two "-aniso" classes force anisotropic node sizes (tall-thin, wide-flat, or thin leaves among square inner
+    // nodes); every class draws defaultTreeGrowthDir from all four directions, so that the transverse/axial
+    // extent selection of the tree layout is exercised in both orientations on pure trees and on peeled trees
+    const int NCLS = 10;
+    const char *classes[NCLS] = {"tree", "tree-sym", "cycle", "core-trees", "hub", "links", "core-trees", "hub",
+                                 "tree-aniso", "core-trees-aniso"};
     for (; k < nfixed + ncases; ++k) {
         if (!a.want(k)) continue;
-        vh::Rng r = vh::caseRng(a.seed, k);
+        // random streams are numbered from 6 (the number of witnesses when the generator was first used), so that
+        // adding a witness shifts the case indices but does not change the set of generated cases
+        vh::Rng r = vh::caseRng(a.seed, k - nfixed + 6);
         int cls = (int) ((k - nfixed) % NCLS);
         int nmax = thorough ? 60 : 25;
         int n = (int) r.range(5, nmax);
@@ -408,7 +428,8 @@ int main(int argc, char **argv) {
         case 0: g = genTree(n, r); break;
         case 1: g = genSymTree(n, r); break;
         case 2: g = genCycle(n, r); break;
-        case 3: case 6: g = genCoreTrees(n, r); break;
+        case 3: case 6: case 9: g = genCoreTrees(n, r); break;
+        case 8: g = r.coin() ? genTree(n, r) : genSymTree(n, r); break;
         case 4: case 7: g = genHub(n, r); break;
         default: g = genLinks(n, r); break;
         }
@@ -416,12 +437,21 @@ int main(int argc, char **argv) {
         // ---- sizes. "exact": integers with sum(w+h) divisible by n, so that IEL = sum/n is an integer and
         // every padding amount (IEL/4, IEL/16, 3 IEL/16) is a dyadic with <= 4 fractional bits: pad/unpad is
         // exact in double arithmetic. "free": arbitrary doubles (pad/unpad rounds).
-        int sizeMode = (int) r.range(0, 3);            // 0,1,2 exact variants; 3 free
+        int sizeMode = (int) r.range(0, 3);            // 0,1,2 exact variants; 3 free; 4,5,6 anisotropic (exact)
+        if (cls >= 8) sizeMode = (int) r.range(4, 6);
+        std::vector<int> deg(n, 0);
+        for (auto &e : g.es) { ++deg[e.first]; ++deg[e.second]; }
         std::vector<Geo> geo(n);
         for (int i = 0; i < n; ++i) {
             if (sizeMode == 0) { geo[i].w = (double) r.range(20, 60); geo[i].h = (double) r.range(20, 60); }
             else if (sizeMode == 1) { geo[i].w = (double) r.range(10, 120); geo[i].h = (double) r.range(10, 40); }
             else if (sizeMode == 2) { geo[i].w = geo[i].h = 30; if (r.coin(1, 4)) { geo[i].w = (double) r.range(30, 90); } }
+            else if (sizeMode == 4) { geo[i].w = (double) r.range(6, 16); geo[i].h = (double) r.range(60, 110); }      // tall-thin
+            else if (sizeMode == 5) { geo[i].w = (double) r.range(60, 110); geo[i].h = (double) r.range(6, 16); }      // wide-flat
+            else if (sizeMode == 6) {                                                                                  // thin leaves, square inner nodes
+                if (deg[i] <= 1) { bool tall = (i % 2 == 0) || r.coin(2, 3);
+                    geo[i].w = tall ? 8 : 90; geo[i].h = tall ? 90 : 8; }
+                else { geo[i].w = geo[i].h = 40; } }
             else { geo[i].w = 10 + (double) r.range(0, 9000) / 100.0; geo[i].h = 10 + (double) r.range(0, 5000) / 100.0; }
         }
         if (sizeMode != 3) {
@@ -444,7 +474,8 @@ int main(int argc, char **argv) {
         double kink = r.coin() ? 0.25 : 0.5;
         double scope = r.coin() ? 1.0 : 2.0;
         int aspect = (int) r.range(0, 2);
-        HolaOpts opts = mkOpts(aca, nearAlign, reps, kink, scope, aspect);
+        int growth = (int) r.range(0, 3);
+        HolaOpts opts = mkOpts(aca, nearAlign, reps, kink, scope, aspect, growth);
         std::vector<char> flip(g.es.size());
         for (size_t j = 0; j < flip.size(); ++j) flip[j] = r.coin();
         std::string tag = std::string(classes[cls]) + (sizeMode == 3 ? "-free" : "");
